@@ -49,7 +49,7 @@ Definition icmp_error_min : nat := 8.
 Definition LENGTH_OFFSET (fam : family) : nat := match fam with FamV4 => 5%nat | FamV6 => 4%nat end.
 Definition length_unit (fam : family) : Z := match fam with FamV4 => 4 | FamV6 => 8 end.
 
-Definition icmp_error_get_length (fam : family) (buf : list Z) : result Z := buf_read (LENGTH_OFFSET fam) buf.
+Definition icmp_error_get_length (fam : family) (buf : list Z) : result Z := pv_buf_read (LENGTH_OFFSET fam) buf.
 
 Definition icmp_error_payload_raw (buf : list Z) : result (list Z) := slice_from icmp_error_min buf.
 
@@ -82,14 +82,14 @@ Definition pinned_split_payload_extension (fam : family) (buf : list Z) : result
    ExtensionHeaderPacket, ExtensionsPacket, ExtensionObjectPacket
    ------------------------------------------------------------------------------------------ *)
 Definition extension_header_get_version (buf : list Z) : result Z :=
-  let* b := buf_read 0 buf in Ok (u8_shr (u8_and b 240) 4).
+  let* b := pv_buf_read 0 buf in Ok (pv_u8_shr (pv_u8_and b 240) 4).
 Definition extension_header_get_checksum (buf : list Z) : result Z := buf_get_u16 2 buf.
 
 Definition extensions_header (buf : list Z) : result (list Z) := slice 0 4 buf.
 
 Definition extension_object_get_length (buf : list Z) : result Z := buf_get_u16 0 buf.
-Definition extension_object_get_class_num (buf : list Z) : result Z := buf_read 2 buf.
-Definition extension_object_get_class_subtype (buf : list Z) : result Z := buf_read 3 buf.
+Definition extension_object_get_class_num (buf : list Z) : result Z := pv_buf_read 2 buf.
+Definition extension_object_get_class_subtype (buf : list Z) : result Z := pv_buf_read 3 buf.
 (* repaired: the end of the payload is the length field clamped to [4, buffer length] *)
 Definition extension_object_payload (buf : list Z) : result (list Z) :=
   let* l := extension_object_get_length buf in
@@ -135,14 +135,14 @@ Definition extensions_objects (buf : list Z) : result (list (list Z)) :=
 (* ------------------------------------------------------------------------------------------
    MplsLabelStackMemberPacket, MplsLabelStackIter
    ------------------------------------------------------------------------------------------ *)
-Definition mpls_member_get_label (buf : list Z) : result Z :=
-  let* a := buf_read 0 buf in let* b := buf_read 1 buf in let* c := buf_read 2 buf in
+Definition pv_mpls_member_get_label (buf : list Z) : result Z :=
+  let* a := pv_buf_read 0 buf in let* b := pv_buf_read 1 buf in let* c := pv_buf_read 2 buf in
   Ok (Z.shiftr (from_be_bytes [0; a; b; c]) 4).
-Definition mpls_member_get_exp (buf : list Z) : result Z :=
-  let* b := buf_read 2 buf in Ok (u8_shr (u8_and b 14) 1).
-Definition mpls_member_get_bos (buf : list Z) : result Z :=
-  let* b := buf_read 2 buf in Ok (u8_and b 1).
-Definition mpls_member_get_ttl (buf : list Z) : result Z := buf_read 3 buf.
+Definition pv_mpls_member_get_exp (buf : list Z) : result Z :=
+  let* b := pv_buf_read 2 buf in Ok (pv_u8_shr (pv_u8_and b 14) 1).
+Definition pv_mpls_member_get_bos (buf : list Z) : result Z :=
+  let* b := pv_buf_read 2 buf in Ok (pv_u8_and b 1).
+Definition pv_mpls_member_get_ttl (buf : list Z) : result Z := pv_buf_read 3 buf.
 
 (* iterator state = (offset, bos) *)
 Definition mpls_label_stack_iter_next (buf : list Z) (offset : nat) (bos : Z)
@@ -152,7 +152,7 @@ Definition mpls_label_stack_iter_next (buf : list Z) (offset : nat) (bos : Z)
     let* member_bytes := slice_from offset buf in
     match new_view 4 member_bytes with
     | Ok member =>
-      let* b := mpls_member_get_bos member in
+      let* b := pv_mpls_member_get_bos member in
       Ok (Some (member_bytes, (offset + 4)%nat, b))
     | Err _ => Ok None
     | Fault f => Fault f
@@ -181,10 +181,10 @@ Inductive Extension :=
 | ExtMpls (members : list MplsLabelStackMember).
 
 Definition mpls_member_from (buf : list Z) : result MplsLabelStackMember :=
-  let* l := mpls_member_get_label buf in
-  let* e := mpls_member_get_exp buf in
-  let* b := mpls_member_get_bos buf in
-  let* t := mpls_member_get_ttl buf in
+  let* l := pv_mpls_member_get_label buf in
+  let* e := pv_mpls_member_get_exp buf in
+  let* b := pv_mpls_member_get_bos buf in
+  let* t := pv_mpls_member_get_ttl buf in
   Ok {| mpls_label := l; mpls_exp := e; mpls_bos := b; mpls_ttl := t |}.
 
 (* .flat_map(XxxPacket::new_view): an item for which new_view is Err is dropped *)
